@@ -7,7 +7,7 @@
 #include "lpfam.h"
 
 static const char *o_fam, *o_cfg;
-static int is_T;
+static int is_T, o_leak;
 static int ncfg;
 static int o_maxcfg;
 
@@ -16,6 +16,7 @@ static void lp_init (void)
 	o_fam = opt_str ("fam", "S0c");
 	o_cfg = opt_str ("cfg", "default");
 	is_T = !strcmp (o_fam, "T");
+	o_leak = (int) opt_int ("leak", 0);
 	if (!is_T) lpfam_select (o_fam);
 	ncfg = xcfg_set_count (o_cfg);
 	o_maxcfg = (int) opt_int ("maxcfg", 0);
@@ -257,6 +258,26 @@ static void lp_run (long item)
 		obs_free (o); obs_free (o2);
 		if (warm) mpq_QSfree_basis (warm);
 		mpq_QSfree_prob (p);
+	}
+	/* C18 on the solve paths: build ; QSexact_solver ; free must return every byte (second round, so that lazily created
+	 * global tables of the first round do not count); only on builds that can count allocated bytes */
+	if (o_leak && mem_tracking ()) {
+		for (int algo = 0; algo < 2; algo++) {
+			size_t m0 = 0, m1 = 0; int st = 0, rv = 0;
+			for (int round = 0; round < 2; round++) {
+				m0 = mem_now ();
+				mpq_QSprob p = qsx_build (L, ROUTE_LOAD, 0);
+				if (!p) break;
+				rv = QSexact_solver (p, NULL, NULL, NULL, algo ? PRIMAL_SIMPLEX : DUAL_SIMPLEX, &st);
+				mpq_QSfree_prob (p);
+				m1 = mem_now ();
+			}
+			STAT ("leak_probes");
+			if (m1 != m0) {
+				XCfg x0; xcfg_default (&x0); lp_desc (L, &x0, desc, sizeof desc);
+				viol ("C18", "lp-solve-leak", "%ld bytes remain allocated after build ; QSexact_solver(%s) -> rval=%d status=%s ; free: %s", (long) m1 - (long) m0, algo ? "PRIMAL" : "DUAL", rv, status_name (st), desc);
+			}
+		}
 	}
 	if (nontrivial) STAT ("instances_nontrivial");
 	mpq_clear (v0);
